@@ -11,7 +11,7 @@ BATCH-1 the batch system records what it sends
 import ast
 
 from sa.model import src, short, dotted, call_attr, kwarg, walk_local, AnalysisError, const_value, assigned_targets
-from sa.helpers import is_snapshot
+from sa.helpers import is_snapshot, batch_conservation
 from sa.index import get_index
 from sa.units import Units, load_spec, MS, S, ABS
 
@@ -293,12 +293,17 @@ def check(chk):
     ok = any(call_attr(c) == "cancel" for c in st.calls())
     chk.ob("PAIR-23", "stop() cancels the fade task", ok, st.where(), construct=st.ident, text="stop cancels")
 
+    _stack_reads(chk, repo)
+    _direct_fade(chk, repo)
+
     # ------------------------------------------------------------ BATCH-1
     g = repo.func(BL, "PlatformBatchLightSystem._send_update_batch")
     chk.analysed(g)
     gcfg = g.cfg()
     loops = [h for h in gcfg.nodes if h.kind == "loop" and src(h.ast.iter) == "sequential_lights"]
-    chk.require(loops, "C09: batch loop vanished")
+    if not loops:
+        chk.missing("BATCH-1", "_send_update_batch walks the lights handed to it", g)
+        return
     it = [b for b in gcfg.nodes if b.kind == "branch" and b.test == loops[0].id and b.tag == "iter"][0]
     rec = [n.id for n in gcfg.nodes_where(lambda n: n.kind == "stmt" and isinstance(n.ast, ast.Assign) and src(n.ast.targets[0]) == "self.last_state[light]")]
     sends = [(n, c) for n, c in gcfg.calls_named("append") if src(c.func.value) == "sequential_brightness_list"] + \
@@ -332,6 +337,215 @@ def check(chk):
     ok = any(call_attr(c) == "add" and src(c.func.value) == "self.dirty_lights" for c in md.calls()) and \
         any(isinstance(x, ast.Assign) and src(x.targets[0]) == "self.dirty_schedule" and "x[1] != light" in src(x.value) for x in walk_local(md.node))
     chk.ob("BATCH-1", "marking dirty queues the light and drops its pending fade steps", ok, md.where(), construct=md.ident, text="mark_dirty")
+    # BATCH-2: nothing falls out of the batches
+    batch_conservation(chk, "BATCH-2", g, "sequential_brightness_list", "update_callback", "light", "sequential_lights",
+                       skip_ok=lambda gd: gd.get("last_state[0] == brightness") is True and (gd.get("not done") is False or gd.get("done") is True))
+    su = repo.func(BL, "PlatformBatchLightSystem._send_updates")
+    chk.analysed(su)
+    batch_conservation(chk, "BATCH-2", su, "sequential_lights", "_send_update_batch", "light", "self.dirty_lights")
+    scfg = su.cfg()
+    clr = [n for n, c in scfg.calls_named("clear") if src(c.func.value) == "self.dirty_lights"]
+    snd = [n for n, c in scfg.calls_named("_send_update_batch")]
+    ok = bool(clr) and bool(snd) and all(scfg.path_avoiding(c_.id, [s_.id], [h.id for h in scfg.nodes if h.kind == "join" and isinstance(h.ast, ast.While)],
+                                                            ignore_exc=True) is None for c_ in clr for s_ in snd)
+    chk.ob("BATCH-2", "the dirty set is cleared only after its lights were sent", ok, su.where(), construct=su.ident, text="dirty set cleared early")
+    snap = [h for h in scfg.nodes if h.kind == "loop" and "self.dirty_lights" in src(h.ast.iter)]
+    chk.ob("BATCH-2", "the dirty set is iterated as a snapshot (lights become dirty while a batch is awaited)", bool(snap) and is_snapshot(snap[0].ast.iter),
+           su.where(), construct=su.ident, text="dirty set snapshot")
+    chk.floor("BATCH-2", 10)
+    # BATCH-3: a fade that is not finished yet is put back on the schedule (otherwise its end value is never sent)
+    from sa.helpers import feasible_paths
+    gfb = [n for n in gcfg.nodes if n.kind == "stmt" and isinstance(n.ast, ast.Assign) and call_attr(n.ast.value) == "get_fade_and_brightness"]
+    ok = bool(gfb) and isinstance(gfb[0].ast.targets[0], ast.Tuple) and len(gfb[0].ast.targets[0].elts) == 3 and \
+        src(gfb[0].ast.value.func.value) == "light" and [src(a) for a in gfb[0].ast.value.args] == ["current_time"]
+    chk.ob("BATCH-3", "brightness, remaining fade and done-flag of each light are taken at the batch's current time", ok, g.where(), construct=g.ident,
+           text="get_fade_and_brightness")
+    if ok:
+        bname, fname, dname = [src(e) for e in gfb[0].ast.targets[0].elts]
+        sched = [n for n in gcfg.nodes if n.kind == "stmt" and isinstance(n.ast, ast.Assign) and src(n.ast.targets[0]) == "schedule_time"]
+        v = sched[0].ast.value if sched else None
+        okv = isinstance(v, ast.BinOp) and isinstance(v.op, ast.Add) and src(v.left) == "current_time" and isinstance(v.right, ast.BinOp) and \
+            isinstance(v.right.op, ast.Div) and src(v.right.left) == fname and const_value(v.right.right) == 1000
+        chk.ob("BATCH-3", "the next step of a fade is due at now + remaining_ms / 1000", okv, g.where(sched[0].ast) if sched else g.where(), construct=g.ident,
+               text="schedule_time")
+        adds = [n.id for n, c in gcfg.calls_named("add") if src(c.func.value) == "self.dirty_schedule" and c.args and
+                src(c.args[0]).replace(" ", "").strip("()") == "schedule_time,light"]
+        nd = [b for b in gcfg.nodes if b.kind == "branch" and ((src(b.ast) == dname and b.value is False) or (src(b.ast) == "not " + dname and b.value is True))]
+        for b in nd:
+            w = gcfg.path_avoiding(b.id, [loops[0].id, gcfg.exit.id], adds, ignore_exc=True)
+            chk.ob("BATCH-3", "an unfinished fade is rescheduled for its next step", bool(adds) and w is None, g.where(b.ast),
+                   path=gcfg.fmt_path(w, BL) if w else None, detail="its final brightness would never be transmitted", construct=g.ident,
+                   text="unfinished fade not rescheduled")
+        chk.ob("BATCH-3", "unfinished fades are recognised", bool(nd), g.where(), construct=g.ident, text="done test")
+        for a in adds:
+            gd = gcfg.guards_at(a)
+            chk.ob("BATCH-3", "only unfinished fades are rescheduled", gd.get(dname) is False or gd.get("not " + dname) is True, g.where(gcfg.nodes[a].ast),
+                   construct=g.ident, text="reschedule guard")
+        wake = [n for n, c in gcfg.calls_named("set") if src(c.func.value) == "self.schedule_changed"]
+        # the scheduler sleeps until the earliest entry: an entry that becomes the earliest must wake it
+        for b in nd:
+            bad = None
+            for path, fx in feasible_paths(gcfg, b.id, adds):
+                earliest = fx.get("not self.dirty_schedule") is True or fx.get("self.dirty_schedule") is False or \
+                    fx.get("self.dirty_schedule[0][0] > schedule_time") is True
+                if earliest and not (set(path) & {n.id for n in wake}):
+                    bad = path
+            chk.ob("BATCH-3", "the scheduler is woken when the new step is earlier than everything it sleeps for", bool(wake) and bad is None,
+                   g.where(b.ast), path=gcfg.fmt_path(bad, BL) if bad else None, construct=g.ident, text="scheduler not woken")
+        cmp_ = [x for x in ast.walk(g.node) if isinstance(x, ast.Compare) and "self.dirty_schedule[0][0]" in src(x) and "schedule_time" in src(x)]
+        okc = bool(cmp_) and all((isinstance(x.ops[0], ast.Gt) and src(x.left) == "self.dirty_schedule[0][0]") or
+                                 (isinstance(x.ops[0], ast.Lt) and src(x.comparators[0]) == "self.dirty_schedule[0][0]") for x in cmp_)
+        chk.ob("BATCH-3", "`earlier` compares the first scheduled time with the new step's time", okc, g.where(), construct=g.ident,
+               text="earliest comparison")
+
+
+def _stack_reads(chk, repo):
+    """TOP-1: the colour of a light is read from the top of the (sorted) stack; a transparent entry defers to the rest of the
+    stack below it -- the whole rest, nothing skipped.  CORR-1 / WHITE-1: every colour sent to hardware went through gamma and
+    colour correction; the white channel of an RGBW light is min(r, g, b) of that colour."""
+    for nm in ("_get_color_and_target_time", "_get_color_and_fade"):
+        f = repo.func(LT, "Light." + nm)
+        chk.analysed(f)
+        subs = [x for x in ast.walk(f.node) if isinstance(x, ast.Subscript) and isinstance(x.value, ast.Name) and x.value.id == "stack"]
+        tops = [x for x in subs if not isinstance(x.slice, ast.Slice)]
+        tails = [x for x in subs if isinstance(x.slice, ast.Slice)]
+        chk.ob("TOP-1", "%s reads the colour settings from the top of the stack (stack[0])" % nm, bool(tops) and all(const_value(x.slice) == 0 for x in tops),
+               f.where(), detail=str([src(x) for x in tops]), construct=f.ident, text="top of stack in " + nm)
+        for x in tails:
+            sl = x.slice
+            ok = sl.upper is None and sl.step is None and sl.lower is not None and const_value(sl.lower) == 1
+            chk.ob("TOP-1", "%s: a transparent entry defers to everything below it (stack[1:])" % nm, ok, f.where(x), detail=src(x), construct=f.ident,
+                   text="rest of stack %s in %s" % (src(x), nm))
+        rec = [c for c in ast.walk(f.node) if isinstance(c, ast.Call) and call_attr(c) == nm]
+        chk.ob("TOP-1", "%s looks below a transparent entry" % nm, bool(rec) and bool(tails), f.where(), construct=f.ident, text="recursion in " + nm)
+        cfg = f.cfg()
+        for c in rec:
+            n = [y for y in cfg.nodes if y.kind != "branch" and any(z is c for z in y.calls())]
+            if not n:
+                continue
+            g = cfg.guards_at(n[0].id)
+            ok = g.get("dest_color is None") is True
+            chk.ob("TOP-1", "%s defers to the lower entries only for a transparent entry (no colour of its own)" % nm, ok, f.where(c),
+                   detail="guards %s" % sorted(g.items()), construct=f.ident, text="recursion guard in " + nm)
+            a0 = c.args[0] if c.args else None
+            chk.ob("TOP-1", "%s recurses on the rest of the stack" % nm, a0 is not None and src(a0) == "stack[1:]", f.where(c), construct=f.ident,
+                   text="recursion argument in " + nm)
+            if nm == "_get_color_and_fade":
+                chk.ob("TOP-1", "the fade budget is handed down unchanged", len(c.args) >= 2 and src(c.args[1]) == "max_fade_ms", f.where(c),
+                       construct=f.ident, text="recursion budget")
+        # empty stack -> off
+        offs = [r for r in ast.walk(f.node) if isinstance(r, ast.Return) and "self._off_color" in src(r)]
+        chk.ob("TOP-1", "%s: an empty stack means off" % nm, bool(offs), f.where(), construct=f.ident, text="empty stack in " + nm)
+    f = repo.func(LT, "Light._schedule_update")
+    cfg = f.cfg()
+    loops = [h for h in cfg.nodes if h.kind == "loop" and "hw_drivers" in src(h.ast.iter)]
+    if not loops:
+        chk.missing("CORR-1", "_schedule_update walks the hardware channels", f)
+        return
+    head = loops[0]
+    for var in ("start_color", "target_color"):
+        defs = [n for n in cfg.nodes if n.kind == "stmt" and isinstance(n.ast, ast.Assign) and src(n.ast.targets[0]) == var and cfg.path_avoiding(n.id, [head.id], [])]
+        bad = None
+        corrected = []
+        for n in defs:
+            v = src(n.ast.value)
+            if "self.color_correct(self.gamma_correct(" in v.replace(" ", ""):
+                corrected.append(n.id)
+            elif v in ("start_color", "target_color") :
+                corrected.append(n.id)      # alias of the other (checked below)
+        # every path from entry to the channel loop passes a correcting definition of var after the raw one
+        raw = [n.id for n in cfg.nodes if n.kind == "stmt" and isinstance(n.ast, ast.Assign) and isinstance(n.ast.targets[0], ast.Tuple)
+               and var in [src(e) for e in n.ast.targets[0].elts]]
+        w = cfg.path_avoiding(raw[0], [head.id], corrected, ignore_exc=True) if raw else [0]
+        chk.ob("CORR-1", "%s is gamma- and colour-corrected before it is split into channel brightnesses" % var, bool(raw) and w is None, f.where(),
+               path=cfg.fmt_path(w, LT) if raw and w else None, construct=f.ident, text="uncorrected " + var)
+        for n in defs:
+            v = src(n.ast.value)
+            if v in ("start_color", "target_color") and v != var:
+                other_corrected = any(cfg.dominates(d.id, n.id) and "self.color_correct(self.gamma_correct(" in src(d.ast.value).replace(" ", "")
+                                      for d in cfg.nodes if d.kind == "stmt" and isinstance(d.ast, ast.Assign) and src(d.ast.targets[0]) == v)
+                chk.ob("CORR-1", "%s aliases the already corrected %s" % (var, v), other_corrected, f.where(n.ast), construct=f.ident,
+                       text="alias of uncorrected colour")
+    for c in [x for x in ast.walk(f.node) if isinstance(x, ast.Call) and isinstance(x.func, ast.Name) and x.func.id in ("min", "max")]:
+        args = [src(a) for a in c.args]
+        base = args[0].rsplit(".", 1)[0] if args else ""
+        ok = c.func.id == "min" and sorted(args) == sorted([base + ".red", base + ".green", base + ".blue"]) and base in ("start_color", "target_color")
+        chk.ob("WHITE-1", "the white part of a colour is min(red, green, blue) of that colour", ok, f.where(c), detail=src(c), construct=f.ident,
+               text="white part " + src(c))
+    # start brightness from the start colour, target brightness from the target colour
+    for n in cfg.nodes:
+        if n.kind == "stmt" and isinstance(n.ast, ast.Assign) and src(n.ast.targets[0]) in ("start_brightness", "target_brightness"):
+            want = "start_color" if src(n.ast.targets[0]) == "start_brightness" else "target_color"
+            other = "target_color" if want == "start_color" else "start_color"
+            names = {x.id for x in ast.walk(n.ast.value) if isinstance(x, ast.Name)}
+            ok = other not in names and (want in names or isinstance(n.ast.value, ast.Constant))
+            chk.ob("CORR-1", "%s is computed from %s" % (src(n.ast.targets[0]), want), ok, f.where(n.ast), detail=src(n.ast.value), construct=f.ident,
+                   text="%s from %s" % (src(n.ast.targets[0]), sorted(names & {"start_color", "target_color"})))
+            if isinstance(n.ast.value, ast.BinOp) and isinstance(n.ast.value.op, ast.Div):
+                chk.ob("CORR-1", "channel brightness is the 8-bit component / 255", const_value(n.ast.value.right) == 255, f.where(n.ast),
+                       construct=f.ident, text="brightness scale")
+    chk.floor("TOP-1", 12)
+    chk.floor("CORR-1", 10)
+
+
+def _direct_fade(chk, repo):
+    """FADE-1: LightPlatformDirectFade.set_fade always ends in a command that leads to the target brightness: either one direct
+    command with the target, or a software fade task over the same four values whose last command is the target."""
+    f = repo.func(LI, "LightPlatformDirectFade.set_fade")
+    chk.analysed(f)
+    cfg = f.cfg()
+    params = [p_ for p_ in f.params() if p_ != "self"]
+    direct = [(n, c) for n, c in cfg.calls_named("set_brightness_and_fade")]
+    tasks = [(n, c) for n, c in cfg.calls_named("create_task")]
+    for n, c in direct:
+        chk.ob("FADE-1", "the direct command sets the target brightness", bool(c.args) and src(c.args[0]) == "target_brightness", f.where(c),
+               construct=f.ident, text="direct command brightness")
+        ok = len(c.args) >= 2 and "fade_ms" in src(c.args[1])
+        chk.ob("FADE-1", "the direct command fades over the remaining fade time", ok, f.where(c), construct=f.ident, text="direct command fade")
+    for n, c in tasks:
+        inner = c.args[0] if c.args else None
+        ok = isinstance(inner, ast.Call) and call_attr(inner) == "_fade" and [src(a) for a in inner.args] == params
+        chk.ob("FADE-1", "the software fade runs over exactly the values given (start, start time, target, target time)", ok, f.where(c),
+               detail=src(inner) if inner is not None else "", construct=f.ident, text="fade task arguments")
+        st = [m for m in cfg.nodes if m.kind == "stmt" and isinstance(m.ast, ast.Assign) and src(m.ast.targets[0]) == "self.task" and m.ast.value is c]
+        chk.ob("FADE-1", "the running fade task is remembered (so that a later command can cancel it)", bool(st), f.where(c), construct=f.ident,
+               text="fade task stored")
+    ends = [n.id for n, c in direct + tasks]
+    w = cfg.must_pass(cfg.entry.id, ends)
+    chk.ob("FADE-1", "every set_fade ends in a hardware command or a fade task", bool(direct) and bool(tasks) and w is None, f.where(),
+           path=cfg.fmt_path(w, LI) if w else None, construct=f.ident, text="set_fade without command")
+    for n, c in tasks:
+        g = cfg.guards_at(n.id)
+        chk.ob("FADE-1", "a software fade task is used only for fades longer than the hardware can do", g.get("fade_ms > max_fade_ms") is True,
+               f.where(c), detail="guards %s" % sorted(g.items()), construct=f.ident, text="fade task guard")
+    fd = repo.func(LI, "LightPlatformDirectFade._fade")
+    chk.analysed(fd)
+    dc = fd.cfg()
+    sets = [(n, c) for n, c in dc.calls_named("set_brightness_and_fade")]
+    rets = [n for n in dc.nodes if n.kind == "stmt" and isinstance(n.ast, ast.Return)]
+    heads = [h.id for h in dc.nodes if h.kind == "join" and isinstance(h.ast, ast.While)]
+    for r in rets:
+        w = None
+        for h in heads:
+            w = w or dc.path_avoiding(h, [r.id], [n.id for n, c in sets], ignore_exc=True)
+        chk.ob("FADE-1", "the fade task stops only after it has sent a command in that round", bool(sets) and w is None, fd.where(r.ast),
+               construct=fd.ident, text="fade task returns without command")
+        g = dc.guards_at(r.id)
+        chk.ob("FADE-1", "the fade task stops when the rest of the fade fits into one hardware fade", g.get("target_fade_ms <= max_fade_ms") is True,
+               fd.where(r.ast), detail="guards %s" % sorted(g.items()), construct=fd.ident, text="fade task stop guard")
+    fin = [n for n in dc.nodes if n.kind == "stmt" and isinstance(n.ast, ast.Assign) and src(n.ast.targets[0]) == "brightness"
+           and src(n.ast.value) == "target_brightness"]
+    ok = bool(fin) and all(any(k.startswith("target_fade_ms > max_fade_ms") and v is False for k, v in dc.guards_at(n.id).items()) for n in fin)
+    chk.ob("FADE-1", "the last step of a software fade commands the target brightness itself", ok, fd.where(), construct=fd.ident,
+           text="final brightness of fade task")
+    for n, c in sets:
+        a = c.args[0] if c.args else None
+        ok = a is not None and "brightness" in src(a)
+        if isinstance(a, ast.Call):
+            ok = src(a).replace(" ", "") in ("min(1.0,max(brightness,0.0))", "max(0.0,min(brightness,1.0))", "min(1,max(brightness,0))")
+        chk.ob("FADE-1", "interpolated brightness is clamped to [0, 1]", ok, fd.where(c), detail=src(a) if a is not None else "", construct=fd.ident,
+               text="fade clamp")
+    chk.floor("FADE-1", 8)
 
 
 def scan_exits_only_at_key(chk, rule, g, gcfg, h, name):
@@ -373,6 +587,25 @@ def battery():
         M("twin: tuple comparison", LT, "return self.priority > other.priority or (self.priority == other.priority and self.key > other.key)", "return (self.priority, self.key) > (other.priority, other.key)", None),
         M("twin: unconditional sort", LT, "        if len(self.stack) > 1:\n            self.stack.sort(reverse=True)\n\n        if self._debug:\n            self.debug_log(\"+-------------- Adding to stack", "        self.stack.sort(reverse=True)\n\n        if self._debug:\n            self.debug_log(\"+-------------- Adding to stack", None),
         M("twin: scan without enumerate", LT, "        for _, entry in enumerate(self.stack):\n            if entry.key == key and entry.dest_color is None:\n                found = True\n                break", "        for entry in self.stack:\n            if entry.key == key and entry.dest_color is None:\n                found = True\n                break", None),
+        M("transparent entry skips one level", LT, "                return self._get_color_and_fade(stack[1:], max_fade_ms)\n            return dest_color, -1, True", "                return self._get_color_and_fade(stack[2:], max_fade_ms)\n            return dest_color, -1, True", "TOP-1"),
+        M("transparent entry re-reads itself", LT, "                return self._get_color_and_target_time(stack[1:])", "                return self._get_color_and_target_time(stack[:1])", "TOP-1"),
+        M("colour read from second entry", LT, "        try:\n            color_settings = stack[0]\n        except IndexError:\n            # no stack\n            return self._off_color, -1, True", "        try:\n            color_settings = stack[1]\n        except IndexError:\n            # no stack\n            return self._off_color, -1, True", "TOP-1"),
+        M("target colour not corrected", LT, "            start_color = self.color_correct(self.gamma_correct(start_color))\n            target_color = self.color_correct(self.gamma_correct(target_color))\n        else:", "            start_color = self.color_correct(self.gamma_correct(start_color))\n        else:", "CORR-1"),
+        M("gamma correction dropped", LT, "            start_color = self.color_correct(self.gamma_correct(start_color))\n            target_color = start_color", "            start_color = self.color_correct(start_color)\n            target_color = start_color", "CORR-1"),
+        M("white channel is max", LT, "                    start_brightness = min(start_color.red, start_color.green, start_color.blue) / 255.0", "                    start_brightness = max(start_color.red, start_color.green, start_color.blue) / 255.0", "WHITE-1"),
+        M("target brightness from start colour", LT, "                    target_brightness = getattr(target_color, color) / 255.0\n\n            elif", "                    target_brightness = getattr(start_color, color) / 255.0\n\n            elif", "CORR-1"),
+        M("batch item never added", BL, "                sequential_brightness_list.append((light, brightness, common_fade_ms))\n            else:", "                pass\n            else:", "BATCH-2"),
+        M("full batch dropped unsent", BL, "                await self.update_callback(sequential_brightness_list)\n                # start new list", "                # start new list", "BATCH-2"),
+        M("last batch not flushed", BL, "        if sequential_brightness_list:\n            await self.update_callback(sequential_brightness_list)\n", "", "BATCH-2"),
+        M("sequence break drops the lights so far", BL, "                    await self._send_update_batch(sequential_lights, max_fade_tolerance)\n                    # this light is a new sequence", "                    # this light is a new sequence", "BATCH-2"),
+        M("dirty set cleared before sending", BL, "            self.dirty_lights_changed.clear()\n            sequential_lights = []", "            self.dirty_lights_changed.clear()\n            self.dirty_lights.clear()\n            sequential_lights = []", "BATCH-2"),
+        M("unfinished fade not rescheduled", BL, "                self.dirty_schedule.add((schedule_time, light))\n", "", "BATCH-3"),
+        M("scheduler not woken for an earlier step", BL, "                if not self.dirty_schedule or self.dirty_schedule[0][0] > schedule_time:\n                    self.schedule_changed.set()\n", "", "BATCH-3"),
+        M("step due in ms instead of s", BL, "schedule_time = current_time + (fade_ms / 1000)", "schedule_time = current_time + fade_ms", "BATCH-3"),
+        M("software fade task never started", LI, "            self.task = self.loop.create_task(self._fade(start_brightness, start_time, target_brightness, target_time))\n            self.task.add_done_callback(Util.raise_exceptions)", "            pass", "FADE-1"),
+        M("fade task start/target swapped", LI, "self._fade(start_brightness, start_time, target_brightness, target_time))", "self._fade(target_brightness, start_time, start_brightness, target_time))", "FADE-1"),
+        M("direct command sets the start brightness", LI, "            self.set_brightness_and_fade(target_brightness, max(fade_ms, 0))", "            self.set_brightness_and_fade(start_brightness, max(fade_ms, 0))", "FADE-1"),
+        M("fade task ends before the last command", LI, "            self.set_brightness_and_fade(min(1.0, max(brightness, 0.0)), max(fade_ms, 0))\n            if target_fade_ms <= max_fade_ms:\n                return", "            if target_fade_ms <= max_fade_ms:\n                return\n            self.set_brightness_and_fade(min(1.0, max(brightness, 0.0)), max(fade_ms, 0))", "FADE-1"),
     ]
 
 
